@@ -13,19 +13,22 @@ REAL_B = e1.REAL_B
 NAME = world.ROOT_NAME
 
 FAMILIES = ["own-v1", "own-v2", "own-hybrid", "ref-V1", "ref-V2",
-            "ref-HY-notrail"]
+            "ref-HY-notrail", "own-v1-aligned", "ref-V1-bep47"]
 OWN = {"own-v1": "TorrentFile", "own-v2": "Assembler2",
-       "own-hybrid": "Assembler3"}
+       "own-hybrid": "Assembler3", "own-v1-aligned": "TorrentFile"}
 SCATTER = ["orig", "flat", "deep", "split"]
-DECOY = ["none", "decoy", "unrelated"]
+DECOY = ["none", "decoy", "unrelated", "partial"]
 
 
 def make_meta(fam, tree, P, B, srcroot, mpath, name=NAME):
     if fam in OWN:
         tf.reset_process_state()
-        return tf.create(OWN[fam], srcroot, mpath, P)
+        kw = {"align": True} if fam == "own-v1-aligned" else {}
+        return tf.create(OWN[fam], srcroot, mpath, P, **kw)
     if fam == "ref-V1":
         m = model.ref_v1(name, tree, P)
+    elif fam == "ref-V1-bep47":
+        m = model.ref_v1(name, tree, P, "bep47")
     elif fam == "ref-V2":
         m = model.ref_v2(name, tree, P, B)
     else:
@@ -75,6 +78,14 @@ def add_decoys(files, placed, kind, seed):
         d, base = os.path.dirname(p), os.path.basename(p)
         if kind == "decoy" and data:
             fake = bytes((b ^ 0x5A) or 0x11 for b in data)
+            for sub in ("!first", "~last"):
+                q = os.path.join(d, sub, base)
+                world.write_file(q, fake)
+                out.append(q)
+        elif kind == "partial" and len(data) >= 2:
+            # same name and size, identical except for the last byte: verifies
+            # in every piece but the file's last one
+            fake = data[:-1] + bytes([(data[-1] ^ 0x3C) or 0x11])
             for sub in ("!first", "~last"):
                 q = os.path.join(d, sub, base)
                 world.write_file(q, fake)
@@ -129,7 +140,10 @@ class RebuildCheck:
                 "split over two search directories; decoys: same name and "
                 "size with entirely different bytes in directories listed "
                 "before and after the true copy (both listing orders), "
-                "unrelated files",
+                "unrelated files (other names; same name but longer), partial "
+                "decoys (same name and size, only the last byte differs)",
+                "metafile families: own v1 / v1 --align / v2 / hybrid, "
+                "reference V1 / V1 with BEP 47 pad files / V2 / hybrid",
                 "'full directory structure' includes empty files; the count "
                 "is judged as <= torrent files present in an initially empty "
                 "destination",
@@ -200,7 +214,7 @@ class RebuildCheck:
         # C13
         for B in ([2] if quick else [2, 4]):
             for P in ([2 * B] if quick else [B, 2 * B, 4 * B]):
-                for sh in ["S1", "D1", "D2n", "D3", "D3s", "D3x"]:
+                for sh in ["S1", "D1", "D2n", "D3", "D3s", "D3x", "D3n"]:
                     n = world.nfiles(sh)
                     top = (P + 2 if quick else 2 * P + 1) if n >= 3 else \
                         2 * P + 1
@@ -211,7 +225,7 @@ class RebuildCheck:
                                    "first": g["first"], "seed": seed,
                                    "tier": tier})
         for P in ([32768] if quick else [16384, 32768]):
-            for sh in ["S1", "D1", "D2n", "D3s", "D3x"] + (
+            for sh in ["S1", "D1", "D2n", "D3s", "D3x", "D3n"] + (
                     [] if quick else ["D3", "D4"]):
                 n = world.nfiles(sh)
                 alpha = [0, 1, P - 1, P, P + 1, 2 * P, 2 * P + 1] if n < 3 \
@@ -276,6 +290,15 @@ class RebuildCheck:
                             for p, d in probs:
                                 sig = (f"C13|{fam}|{p}|{e1.world_class(w)}|"
                                        f"{sc}|{dk}")
+                                if dk == "partial" and model.meta_version_of(
+                                        meta[b"info"]) == 1 and \
+                                        p == "restored-with-wrong-bytes":
+                                    # one call site, one input class: the v1
+                                    # piece matcher settles on the first
+                                    # candidate whose first piece verifies
+                                    sig = ("C13|v1-piece-matcher|restored-"
+                                           "with-wrong-bytes|same-size-decoy-"
+                                           "differing-only-in-a-later-piece")
                                 found.append((sig, {
                                     "world": w, "seed": seed, "family": fam,
                                     "scatter": sc, "decoy": dk,
